@@ -27,8 +27,13 @@ def resolve_faults(program):
         return prog
     if raw_h:
         seen = {}
+        # a run-time skip only means something in a before_feature / before_rule / before_scenario hook
+        eligible = [i for i, h in enumerate(base.hooks) if h[0] in ("before_feature", "before_rule", "before_scenario")]
         for k, exc in raw_h:
-            seen.setdefault(int(k) % n, exc)
+            pos = int(k) % n
+            if exc == "skip" and eligible and pos not in eligible:
+                pos = eligible[int(k) % len(eligible)]
+            seen.setdefault(pos, exc)
         prog["hook_faults"] = sorted([k, e] for k, e in seen.items())
     if raw_c:
         prog["cleanups"] = [{"at": int(c["at"]) % n, "raises": bool(c.get("raises"))}
